@@ -58,6 +58,11 @@ def _progs(tier: str) -> List[Dict[str, Any]]:
             out.append({"prog": {"items": [["op", k]], "sink": "tensor", "root": "bare"}, "fmt": f})
         for a, b in itertools.product(mods, mods):
             out.append({"prog": {"items": [["op", a], ["op", b]], "sink": "tensor", "root": "torch_sequential"}, "fmt": f})
+    # the module given to simulate_format already carries an (identity) transform and may have been
+    # called before: the new transform must still be applied (histories of nested transforms)
+    for n, k in enumerate(LIN + ULIN + ATT):
+        for pre in ("nested", "nested_called"):
+            out.append({"prog": {"items": [["op", k], ["op", "gelu:F"]], "sink": "sum"}, "fmt": FORMATS[n % 4], "pre": pre})
     for n, (a, b) in enumerate(itertools.product(ALL, ALL)):
         out.append({"prog": {"items": [["op", a], ["op", b]], "sink": "mse" if n % 3 == 0 else "sum"}, "fmt": FORMATS[n % 4]})
     for n, items in enumerate(spines(SPINE, SMALL + ["linear:F_nobias", "sdpa:plain"], 1 if tier == "quick" else 2)):
@@ -190,7 +195,16 @@ def run_case(case: Dict[str, Any]) -> Dict[str, Any]:
             captured.append(t)
             y_imp, g_imp = run(m, t)
         else:
-            t = simulate_fp8(m) if fname == "fp8_api" else simulate_format(m, fwd, bwd)
+            base_m = m
+            if case.get("pre"):
+                from unit_scaling.transforms.utils import apply_transform
+
+                ident += "|" + case["pre"]
+                base_m = apply_transform(m, lambda gm, ex: gm)  # an identity graph transform
+                if case["pre"] == "nested_called":
+                    torch._dynamo.reset()
+                    run(base_m, base_m)
+            t = simulate_fp8(base_m) if fname == "fp8_api" else simulate_format(base_m, fwd, bwd)
             t.backends.append(lambda gm, ex: (captured.append(gm), gm)[1])
             torch._dynamo.reset()
             y_imp, g_imp = run(t, t)
